@@ -23,22 +23,26 @@ Print Assumptions C16_no_preview_event.
      forall s, reachable s -> events_after_persist s
    see C16_after_persist_refuted below. What holds: *)
 
-(* unconditionally: every event was published when an entry of the same kind and the same transaction id was
-   already on disk (among the first [ev_persisted ev] entries); the publisher is a non-preview request of that
-   kind; the entry is the publisher's own, and then its reverted id is the event's, or it is the entry stored under
-   the publisher's idempotency key (replay), and then the event's reverted id is the one the REQUEST named *)
+(* unconditionally: every event was published by a non-preview request of the event's kind, when an entry was
+   already on disk (among the first [ev_persisted ev] entries) that is
+   - the publisher's own: same kind, same transaction id, same reverted id; or
+   - the entry stored under the publisher's idempotency key (replay): of the event's kind and transaction id (the
+     event's reverted id is then the one the REQUEST named), or of ANOTHER kind -- then the publisher is a metadata
+     write, the event carries no transaction id, and nothing was written for it *)
 Theorem C16_after_persist_weak : forall s, reachable s -> events_after_persist_weak s.
 Proof. exact e3_after_persist_weak. Qed.
 Print Assumptions C16_after_persist_weak.
 
-(* the full statement, under the executable exclusion "no idempotency key stored on a revert entry is reused by a
-   non-preview revert request that names a different transaction" *)
-Theorem C16_after_persist_partial : forall s, reachable s -> ik_revert_consistent_b s = true -> events_after_persist s.
+(* the full statement, under the two executable exclusions: no idempotency key stored on a revert entry is reused
+   by a non-preview revert request naming a different transaction, and no idempotency key is reused by a request of
+   another kind than the entry stored under it *)
+Theorem C16_after_persist_partial : forall s, reachable s ->
+  ik_revert_consistent_b s = true -> ik_kind_consistent_b s = true -> events_after_persist s.
 Proof. exact e3_after_persist_partial. Qed.
 Print Assumptions C16_after_persist_partial.
 
 (* ---- non-vacuity: two creates (the second under key 8), a revert of the first under key 7, the second create
-   replayed under key 8, a metadata write and a preview; five events, the hypothesis of the partial theorem holds ---------------------- *)
+   replayed under key 8, a metadata write and a preview; five events, the hypotheses of the partial theorem hold ---------------------- *)
 Definition c16_history : list (tid * request) :=
   [ (1%nat, mk_create 0 0 false [(world, 5%N, 10%Z)]);
     (2%nat, mk_create 8 9 false [(world, 6%N, 10%Z)]);
@@ -52,7 +56,7 @@ Example C16_nonvacuous :
     map (fun ev => (ev_tid ev, ev_txid ev, ev_reverted ev, ev_persisted ev)) (published s) =
       [ (1, Some 0, None, 1); (2, Some 1, None, 2); (3, Some 2, Some 0, 3); (4, Some 1, None, 3);
         (5, None, None, 4) ]%nat /\
-    ik_revert_consistent_b s = true.
+    ik_revert_consistent_b s = true /\ ik_kind_consistent_b s = true.
 Proof. eexists. split; [vm_compute; reflexivity|]. vm_compute. repeat split. Qed.
 
 (* ---- the full statement is refuted: a key reused by a revert of ANOTHER transaction. Thread 4 asks to revert
@@ -66,12 +70,35 @@ Definition c16_bad_history : list (tid * request) :=
     (4%nat, mk_revert 7 false 1%nat) ].
 Definition c16_bad_acts : list action := Eval vm_compute in submit_all_acts init c16_bad_history.
 Example C16_after_persist_refuted :
-  exists s, reachable s /\ ~ events_after_persist s /\ ik_revert_consistent_b s = false.
+  exists s, reachable s /\ ~ events_after_persist s /\ ik_revert_consistent_b s = false /\ ik_kind_consistent_b s = true.
 Proof.
   destruct (run init c16_bad_acts) as [s|] eqn:E; [|vm_compute in E; discriminate E].
   exists s. split; [exists c16_bad_acts; exact E|].
-  vm_compute in E. inversion E; subst s; clear E. split; [|vm_compute; reflexivity].
+  vm_compute in E. inversion E; subst s; clear E. split; [|vm_compute; split; reflexivity].
   intros H. apply eap_b_sound in H. vm_compute in H. discriminate H.
+Qed.
+
+(* ---- the stronger unconditional reading "an entry of the same kind and transaction id was on disk"
+   ([events_after_persist_samekind]) is refuted too: a metadata write that reuses the key of a transaction. Thread 2
+   saves metadata under the key 7 of thread 1's transaction; SaveMeta does not look at the stored entry: it answers
+   success and publishes a SAVED_METADATA event although no metadata entry exists (known finding
+   ik-reuse-across-kinds; CreateTransaction / RevertTransaction answer an error instead). ------------------------- *)
+Definition c16_cross_history : list (tid * request) :=
+  [ (1%nat, mk_create 7 0 false [(world, 5%N, 10%Z)]);
+    (2%nat, mk_meta 7 false None) ].
+Definition c16_cross_acts : list action := Eval vm_compute in submit_all_acts init c16_cross_history.
+Example C16_after_persist_weak_refuted_cross_kind :
+  exists s, reachable s /\ ~ events_after_persist_samekind s /\ ~ events_after_persist s /\
+    map e_kind (persisted s) = [KCreate] /\
+    map (fun ev => (ev_tid ev, ev_kind ev, ev_txid ev)) (published s) = [(1%nat, KCreate, Some 0%nat); (2%nat, KSaveMeta, None)] /\
+    ik_kind_consistent_b s = false /\ ik_revert_consistent_b s = true.
+Proof.
+  destruct (run init c16_cross_acts) as [s|] eqn:E; [|vm_compute in E; discriminate E].
+  exists s. split; [exists c16_cross_acts; exact E|].
+  vm_compute in E. inversion E; subst s; clear E. split; [|split].
+  - intros H. apply eap_samekind_b_sound in H. vm_compute in H. discriminate H.
+  - intros H. apply eap_b_sound in H. vm_compute in H. discriminate H.
+  - vm_compute. repeat split.
 Qed.
 
 (* ---- before the repair bbc4775 ("a dry run must not publish events"): with the variant [resume_prepub], which
